@@ -4,6 +4,21 @@ import pathrun as P
 from common import cz, czl, czll, cnl, clist, TieBroken
 
 
+def bfs_then_reuse(graph, c):
+    """BFS from the states in container c (a private copy of it), then the caller overwrites that container: the result already returned must not change."""
+    import copy
+    import numpy as np
+    import torch
+    mine = c.clone() if isinstance(c, torch.Tensor) else np.array(c, copy=True) if isinstance(c, np.ndarray) else copy.deepcopy(c)
+    r = graph.bfs(start_states=mine, max_diameter=2)
+    before = r.get_layer(0).tolist()
+    if isinstance(mine, torch.Tensor):
+        mine.zero_()
+    elif isinstance(mine, np.ndarray):
+        mine[...] = 0
+    return [r.layer_sizes, before, r.get_layer(0).tolist() == before]
+
+
 def containers(np, torch, flat_batch, matrix_shape, single, negative_strides=False):
     """All forms of the same batch of states: (label, object). flat_batch: list of flat int lists."""
     out = []
@@ -116,6 +131,7 @@ def run(ctx):
         entry_points = {
             "bfs(start_states)": (lambda c: [fresh().bfs(start_states=c).layer_sizes], False),
             "bfs(start_states, 2 states)": (lambda c: [fresh().bfs(start_states=c).layer_sizes], None),
+            "bfs(start_states) then the caller reuses its buffer": (lambda c: bfs_then_reuse(fresh(), c), True),
             "encode_states": (lambda c: fresh().encode_states(c), None),
             "apply_path": (lambda c: fresh().apply_path(c, path), None),
             "apply_path(empty path)": (lambda c: fresh().apply_path(c, []), None),
